@@ -127,6 +127,14 @@ LeaderLoseTail(k) ==     \* the leader restarts with an older appended sequence 
   /\ lA' = lA - k /\ st' = "init" /\ stream' = "none" /\ aligned' = FALSE
   /\ UNCHANGED <<lLog, lQ, cons, gack, fLog, fA, fQ>>
 
+\* the leader restarts with an older image of the follower's consumer-group meta page (the page is mmap'd and
+\* only synced by FanOutQueue.Sync): consumed / acknowledged roll back, the log itself is intact
+LeaderLoseGroup(k) ==
+  /\ k >= 1 /\ cons - k >= -1 /\ cons - k >= lQ
+  /\ cons' = cons - k /\ gack' = (IF gack < cons - k THEN gack ELSE cons - k)
+  /\ st' = "init" /\ stream' = "none"
+  /\ UNCHANGED <<lLog, lA, lQ, fLog, fA, fQ, aligned>>
+
 LeaderGC ==              \* FanOutQueue.Sync + Queue.GC on the leader
   /\ LET m == IF gack < lA THEN gack ELSE lA IN
      lQ' = IF m >= 0 /\ m > lQ THEN m ELSE lQ
